@@ -48,6 +48,7 @@ fn walk(d: &mut Decoder, depth: usize) -> Result<(), Error> {
 fn check_skip(enc: &[u8], suffix: &[u8], use_walker: bool, all_prefixes: bool, g: Option<&mut Gen>) -> CaseResult {
     let mut buf = enc.to_vec();
     buf.extend_from_slice(suffix);
+    let _case = crate::total::case_guard("Decoder::skip", &buf);
     let mut d = Decoder::new(&buf);
     verif::arm(64 * buf.len() as u64 + 1024);
     let r = d.skip();
@@ -124,8 +125,9 @@ fn random_trees(g: &mut Gen, st: &mut Stats) -> CaseResult {
 /// parents with later siblings (which force the switch from counting mode to the explicit stack).
 fn chains(g: &mut Gen, st: &mut Stats) -> CaseResult {
     st.eval();
-    let depth = match g.below(6) { 0 => g.range(1, 8), 1 => g.range(8, 64), 2 => g.range(64, 600), 3 => g.range(600, 3000), 4 => 10_000, _ => g.range(3000, 10_000) };
-    let style = g.below(8);
+    let depth = match g.below(64) { 0 => *g.pick(&[66_000usize, 70_000, 100_000]), x => match x % 6 { 0 => g.range(1, 8), 1 => g.range(8, 64), 2 => g.range(64, 600), 3 => g.range(600, 3000), 4 => 10_000, _ => g.range(3000, 10_000) } };
+    // (the per-level random style draws one tape byte per level: not for the very deep ones)
+    let style = if depth > 10_000 { g.below(6) } else { g.below(8) };
     let mut enc: Vec<u8> = Vec::with_capacity(depth * 3 + 8);
     let mut closers: Vec<&'static [u8]> = Vec::with_capacity(depth);
     let mut kinds = [0u32; 8];
@@ -151,10 +153,22 @@ fn chains(g: &mut Gen, st: &mut Stats) -> CaseResult {
     let suffix: Vec<u8> = (0 .. n).map(|_| g.byte()).collect();
     check_skip(&enc, &suffix, depth <= 300, false, Some(g))?;
     st.nontrivial(hash_of(&enc));
-    st.class(match depth { 0 ..= 63 => "chain/depth<64", 64 ..= 599 => "chain/depth<600", 600 ..= 2999 => "chain/depth<3000", _ => "chain/depth>=3000" });
+    st.class(match depth { 0 ..= 63 => "chain/depth<64", 64 ..= 599 => "chain/depth<600", 600 ..= 2999 => "chain/depth<3000", 3000 ..= 10_000 => "chain/depth 3000..=10^4", _ => "chain/depth 66000..=10^5" });
     let mixes_def_indef = (kinds[1] + kinds[4] + kinds[5] + kinds[6] > 0) && (kinds[0] + kinds[3] + kinds[7] > 0);
     if mixes_def_indef { st.class("chain/definite+indefinite mixed (stack mode)") }
     st.sample(hash_of(&enc), || format!("chain depth {} style {}: {}", depth, style, short_hex(&enc)));
+    Ok(())
+}
+
+/// Replay entry for abnormal exits (stack overflow): the recorded input (tape minus its first byte) through skip().
+fn raw_input(g: &mut Gen, st: &mut Stats) -> CaseResult {
+    st.eval();
+    let _ = g.byte();
+    let input = g.rest().to_vec();
+    let _case = crate::total::case_guard("Decoder::skip", &input);
+    let mut d = Decoder::new(&input);
+    let _ = d.skip();
+    ensure!(d.position() <= input.len(), "position", "skip() left the decoder at {} of {}", d.position(), input.len());
     Ok(())
 }
 
@@ -168,7 +182,9 @@ pub fn subs() -> Vec<Sub> {
               kind: Kind::Enumerate { quick: 400_000.min(n5), thorough: n5, f: structures5, complete_quick: false, complete_thorough: true } },
         Sub { prop: "C06", name: "random-trees", rule: "grammar-generated trees (depth <= 8, all framings) + 0-8 arbitrary suffix bytes; prefixes sampled for long items; distinct by encoding",
               kind: Kind::Random { quick: 500_000, thorough: 4_000_000, tape: 1024, f: random_trees } },
-        Sub { prop: "C06", name: "chains", rule: "byte-level nesting chains to depth 10^4 (8 opener kinds incl. definite parents with later siblings -> counting-to-stack switch, indefinite maps, tags), validated by the iterative reference parser; distinct by encoding",
+        Sub { prop: "C06", name: "chains", rule: "byte-level nesting chains to depth 10^4, 1.5 % of them 66 000 - 100 000 deep (8 opener kinds incl. definite parents with later siblings -> counting-to-stack switch, indefinite maps, tags), validated by the iterative reference parser; distinct by encoding",
               kind: Kind::Random { quick: 20_000, thorough: 100_000, tape: 10_100, f: chains } },
+        Sub { prop: "C06", name: "raw-input", rule: "replay entry for abnormal exits: a recorded input through skip() in a fresh process (a stack overflow or fatal signal that reproduces is the violation)",
+              kind: Kind::Random { quick: 0, thorough: 0, tape: 16, f: raw_input } },
     ]
 }
